@@ -265,8 +265,10 @@ def check(run):
             first = format(sorted(keys)[0], f'0{width}b')
             tree0 = spec_tree(width, keys)
             lab0 = _root_label(width, keys)
-            for side in ('0', '1'):
-                prune = {lab0 + side}
+            for pp in _edge_paths(sorted(format(k, f'0{width}b') for k in keys)):
+                prune = {pp}
+                side = ''
+                lab0 = pp
                 tree = spec_tree(width, keys, prune=prune)
                 it = Interp(prog)
                 cell = bocrun.build(it, tree)
@@ -308,6 +310,27 @@ def check(run):
                 ok, why = False, f'raises {e}'
             run.check(ok, 'D4', 'parse_hashmap_aug' if not ok else f'parse_aug[{tag}]', f'{tag}: {why}', wa)
             run.evaluations += 1
+    # augmented dictionaries with pruned sub-trees (every proper sub-tree in turn): leaves of the unpruned part are returned
+    for width, keys in sets:
+        if len(keys) < 3:
+            continue
+        kv = {format(k, f'0{width}b'): format((k * 37 + 1) % 256 if width <= 8 else k % 256, '08b') for k in keys}
+        for pp in _edge_paths(sorted(kv)):
+            tree, _ = dictspec.build(kv, width, None, aug, {pp})
+            it = Interp(prog)
+            cell = bocrun.build(it, tree)
+            tag = f'aug w={width},keys={list(keys)},pruned-branch at prefix {pp!r}'
+            try:
+                res = it.invoke(parse_aug, [cm.call_method(it, cell, 'begin_parse'), K(width), lam(prog, 'lambda s: s.load_uint(8)'), lam(prog, 'lambda s: s.load_uint(4)')], {})
+                dct = res.items[0]
+                got = sorted((k, v.v if isinstance(v, K) else repr(v)) for k, v in dct.d.items())
+                want = sorted((k, int(kv[format(k, f'0{width}b')], 2)) for k in keys if not format(k, f'0{width}b').startswith(pp))
+                ok = got == want
+                why = f'leaves of the unpruned part returned ({len(got)})' if ok else f'got {got[:5]}, expected {want[:5]}'
+            except RaiseEx as e:
+                ok, why = False, f'raises {e}'
+            run.check(ok, 'D4', 'parse_hashmap_aug[pruned]' if not ok else f'aug-pruned[{tag}]', f'{tag}: {why}', wa)
+            run.evaluations += 1
     # load_hashmap_aug_e: special root cell is returned as is, empty dict consumes one bit
     it = Interp(prog)
     b = it.construct(prog.cls('Builder'), [], {})
@@ -318,6 +341,23 @@ def check(run):
     left = it.getattr(s, 'remaining_bits')
     ok = isinstance(res, ListV) and isinstance(res.items[0], DictV) and not res.items[0].d and isinstance(left, K) and left.v == 4
     run.check(ok, 'D4', 'Slice.load_hashmap_aug_e[empty]' if not ok else 'aug_e[empty]', f'empty HashmapAugE: returned {vrepr(res)[:40]}, {vrepr(left)} bits left (the root extra stays for the caller)', wa)
+
+
+def _edge_paths(ks, base=''):
+    """key prefixes at which a child edge of some fork starts (every proper sub-tree of the Patricia tree)"""
+    if len(ks) <= 1:
+        return []
+    a, b = ks[0], ks[-1]
+    l = 0
+    while a[l] == b[l]:
+        l += 1
+    out = []
+    for bit in '01':
+        sub = [k[l + 1:] for k in ks if k[l] == bit]
+        p = base + a[:l] + bit
+        out.append(p)
+        out += _edge_paths(sub, p)
+    return out
 
 
 def _root_label(width, keys):
